@@ -70,7 +70,9 @@ def run(ctx):
     m = re.search(r"CHECKS (\d+) MISMATCHES (\d+) WFFAIL (\d+)", mlog)
     checks, mism, wff = (int(m.group(1)), int(m.group(2)), int(m.group(3))) if m else (0, -1, -1)
     m2 = re.search(r"LOADS ok (\d+) err (\d+)", mlog)
-    if (mism != 0 or wff != 0) and not summ["fails"]:
+    known_sigs = {k["signature"] for k in ctx.known_open}
+    new_fails = [f for f in summ["fails"] if f[0] not in known_sigs]
+    if (mism != 0 or wff != 0) and not new_fails:
         first = "\n".join(l for l in mlog.split("\n") if l.startswith(("MISMATCH", "MODELRT", "WFFAIL", "DRIVERERR")))[:1500]
         ctx.violation("c13-correspondence", "loader model and implementation disagree (%s mismatches, %s model-loaded networks not well-formed); "
                       "the theorems of Properties/C13.v no longer speak about this code: %s" % (mism, wff, first),
